@@ -97,6 +97,7 @@ class Inject:
         self.in_print = False
         self.started = False
         self.hit = None
+        self.injected = False
 
     def drain(self):
         while True:
@@ -122,6 +123,7 @@ class Inject:
         self.drain()
 
     def throw(self, exc_cls):
+        self.injected = True
         if self.fault["kind"] == "KI":
             raise KeyboardInterrupt
         raise exc_cls(5, "injected fault") if issubclass(exc_cls, OSError) else exc_cls("injected fault")
@@ -191,8 +193,8 @@ class Inject:
         if self.in_handler is None:
             ev = [cls, 1, 0]
             self.events.append(ev)
-        if cls == C_RENDER and not hit:
-            self.started = True
+        if cls == C_RENDER:
+            self.started = True   # the code reached a frame render call
         if hit:
             self.hit = [cls, None, None]
         if hit and not self.fault.get("after"):
@@ -211,7 +213,6 @@ class Inject:
                 ev[2] = 2  # natural exception of the real call (StopIteration ends the animation)
             raise
         if hit:
-            self.started = True
             self.mark(ev, after=True)
             self.throw(exc_cls)
         return res
@@ -501,7 +502,7 @@ def run_case(case):
     after = norm(R_TCGETATTR(SLAVE))
     expect = "".join(s for s, _ in inj.segs).replace("\n", "\r\n").encode()
     res.update(calls=inj.calls, events=inj.events, segs=inj.segs, master_ok=(inj.captured == expect),
-               termios_same=(before == after), started=inj.started, hit=inj.hit)
+               termios_same=(before == after), started=inj.started, hit=inj.hit, injected=inj.injected)
     if not res["master_ok"]:
         res["master_diff"] = [len(inj.captured), len(expect)]
     if api == "old":
